@@ -5,6 +5,7 @@ conservativity theorems have NO tokenizer hypothesis left.
 -/
 import RioModel.Props.C04
 import RioModel.Proofs.HtmlStream4
+import RioModel.Proofs.HtmlStream5
 set_option linter.unusedSimpArgs false
 set_option linter.unusedVariables false
 
@@ -67,5 +68,32 @@ theorem raw_and_buffered_valid (d : Bytes) (hd : V d) (k : Nat) :
   ⟨htmlTokenize_tokValid d hd,
    V_append (V_rawsOf fun t ht => htmlTokenize_tokValid d hd t (List.mem_of_mem_drop ht))
      (V_rest htmlTokenize_lossless htmlTokenize_tokValid hd)⟩
+
+/-! ### the `?` exits of `filter` / `append_child` / `prepend_child` other than the UTF-8 validation never fire
+
+`htmlTokenize?` is `none` exactly when some failure exit of the tokenizing loop is taken (`next()?`, `raw()` /
+`buffered()` out of range, `tag_name()?`, `tag_name()` = None, fuel).  On a complete valid buffer it is `some`
+(W5: `htmlTokenize?_isSome_of_valid`), and every `raw_as_string()` / `buffered_as_string()` succeeds
+(`raw_and_buffered_valid`).  The buffers that reach the tokenizer are always complete valid: -/
+
+/-- in `filter`: the buffer tokenised is the validated part of `last_buffer ++ input` -/
+theorem filter_question_marks (s : HtmlSt) (x data pending : Bytes)
+    (h : utf8Split (s.last ++ x) = some (data, pending)) :
+    (htmlTokenize? data).isSome = true ∧ (∀ t ∈ (htmlTokenize data).1, V t.raw) ∧ V (htmlTokenize data).2 := by
+  have hd : V data := V_utf8Split h
+  exact ⟨htmlTokenize?_isSome_of_valid data hd, htmlTokenize_tokValid data hd,
+    V_rest htmlTokenize_lossless htmlTokenize_tokValid hd⟩
+
+/-- in `append_child` / `prepend_child`: the buffer tokenised is a buffered element followed by a tag token, all valid
+by the invariant `HV` (values valid UTF-8), which every call of the stage preserves -/
+theorem visitor_question_marks (ev : Bytes → Bytes → Bool) (s s' : HtmlSt) (x o : Bytes) (hs : HV s)
+    (h : filterHtml htmlTokenize ev s x = some (s', o)) :
+    HV s' ∧ V o ∧ ∀ l ∈ s'.stack, (htmlTokenize? l.buffer).isSome = true := by
+  obtain ⟨h1, h2⟩ := filterHtml_V htmlTokenize_lossless htmlTokenize_tokValid ev s s' x o hs h
+  exact ⟨h1, h2, fun l hl => htmlTokenize?_isSome_of_valid l.buffer (h1.2 l hl)⟩
+
+/-- any complete valid buffer (what `append_child(content: String, ..)` receives) tokenises without a failure exit -/
+theorem valid_buffer_tokenizes (d : Bytes) (hd : V d) : (htmlTokenize? d).isSome = true :=
+  htmlTokenize?_isSome_of_valid d hd
 
 end Rio.C04
